@@ -10,6 +10,7 @@ import (
 	"strconv"
 	"strings"
 	"sync"
+	"sync/atomic"
 	"time"
 
 	"github.com/golang/protobuf/ptypes/empty"
@@ -162,7 +163,7 @@ func (s *sessionMgr) add(nodeName string, id string) (cleanStart bool, nextID ui
 	s.Lock()
 	defer s.Unlock()
 	if v, ok := s.sessions[nodeName]; ok && v.id == id {
-		nextID = v.nextEventID
+		nextID = atomic.LoadUint64(&v.nextEventID)
 	} else {
 		// v.id != id indicates that the client side may recover from crash and need to rebuild the full state.
 		cleanStart = true
@@ -493,7 +494,11 @@ func (f *Federation) EventStream(stream Federation_EventStreamServer) (err error
 				}
 
 				ack := f.eventStreamHandler(sess, in)
-
+				// The event has been applied: move the resume position before the ack can reach the peer.
+				// If it were moved after Send, a reconnecting peer that has already seen this ack (and dropped
+				// the event from its queue) could be told to resume from an event it no longer has, and
+				// would then never re-send the events behind it.
+				atomic.StoreUint64(&sess.nextEventID, ack.EventId+1)
 				err = stream.Send(ack)
 				if err != nil {
 					errCh <- err
@@ -502,7 +507,6 @@ func (f *Federation) EventStream(stream Federation_EventStreamServer) (err error
 				if ce := log.Check(zapcore.DebugLevel, "event ack sent"); ce != nil {
 					ce.Write(zap.Uint64("id", ack.EventId))
 				}
-				sess.nextEventID = ack.EventId + 1
 			}
 		}
 	}()
